@@ -98,6 +98,30 @@ func genC09() {
 		}
 		return true
 	})
+	// every use of the mutex anywhere in the package, as "func:stmt"
+	var mutexUses []string
+	for _, f := range files {
+		for _, d := range f.Decls {
+			fd, ok := d.(*ast.FuncDecl)
+			if !ok || fd.Body == nil {
+				continue
+			}
+			ast.Inspect(fd.Body, func(n ast.Node) bool {
+				switch x := n.(type) {
+				case *ast.DeferStmt:
+					if s := exprString(x.Call); len(s) > 16 && s[:16] == "w.expirationsMtx" {
+						mutexUses = append(mutexUses, fd.Name.Name+":defer "+s)
+						return false
+					}
+				case *ast.CallExpr:
+					if s := exprString(x); len(s) > 16 && s[:16] == "w.expirationsMtx" {
+						mutexUses = append(mutexUses, fd.Name.Name+":"+s)
+					}
+				}
+				return true
+			})
+		}
+	}
 	l := newLean("C09Facts", "Shape of account/watcher/watcher.go consumed by the C09 theorems.")
 	l.p("namespace Pool.Gen.C09")
 	l.p("def newBlockLocked : Bool := %s", leanBool(lockedWholeBody(nb)))
@@ -105,5 +129,6 @@ func genC09() {
 	l.p("def bucketCond : String := %q", bucketCond)
 	l.p("def addExpiredCond : String := %q", addCond)
 	l.p("def overdueSkipCond : String := %q", skipCond)
+	l.p("def mutexUses : List String := %s", leanStrList(mutexUses))
 	l.p("end Pool.Gen.C09")
 }
